@@ -172,77 +172,6 @@ Definition check_new_insn_va (unspec : list proto) (code : opcode) (ops : list o
       bind (check_new_insn unspec code ops') (fun _ => Ok ops')
   end.
 
-(* ------------------------------------------------------------------ function context *)
-
-Record reg_desc : Type := {
-  rd_reg : N; rd_name : name; rd_type : mir_type; rd_hard : option name
-}.
-
-Record func_ctx : Type := {
-  f_vararg : bool;
-  f_res : list mir_type;
-  f_regs : list reg_desc;      (* most recent first *)
-  f_nvars : N;                 (* VARR_LENGTH (func->vars) *)
-  f_nglobals : N               (* VARR_LENGTH (func->global_vars) *)
-}.
-
-Definition find_rd_by_reg (fc : func_ctx) (r : N) : option reg_desc :=
-  find (fun d => N.eqb (rd_reg d) r) (f_regs fc).
-
-Definition find_rd_by_name (fc : func_ctx) (n : name) : option reg_desc :=
-  find (fun d => name_eqb (rd_name d) n) (f_regs fc).
-
-(* ------------------------------------------------------------------ operand shapes *)
-(* What MIR_finish_func looks at in one operand: its mode, and the result of the register
-   look-ups it would perform (find_rd_by_reg is pure, so doing them eagerly changes nothing). *)
-
-Inductive rclass : Set := RC_undecl | RC (m : op_mode).               (* type2mode of the declared type *)
-Inductive bclass : Set := BC_none | BC_undecl | BC_int | BC_nonint.   (* base / index register *)
-Inductive imm : Set := IInt | IUint | IFloat | IDouble | ILdouble.
-
-Inductive shape : Set :=
-| SReg (rc : rclass)
-| SImm (k : imm)
-| SMem (t : mir_type) (neg_disp : bool) (b x : bclass)
-| SLabel
-| SRef (k : item_kind)
-| SStr.
-
-Definition rclass_of (fc : func_ctx) (r : N) : rclass :=
-  match find_rd_by_reg fc r with
-  | Some d => RC (type2mode (rd_type d))
-  | None => RC_undecl
-  end.
-
-Definition bclass_of (fc : func_ctx) (r : N) : bclass :=
-  if N.eqb r 0 then BC_none
-  else match find_rd_by_reg fc r with
-       | Some d => if mode_eqb (type2mode (rd_type d)) OP_INT then BC_int else BC_nonint
-       | None => BC_undecl
-       end.
-
-Definition shape_of (fc : func_ctx) (o : operand) : shape :=
-  match o with
-  | OReg r => SReg (rclass_of fc r)
-  | OInt _ => SImm IInt
-  | OUint _ => SImm IUint
-  | OFloat => SImm IFloat
-  | ODouble => SImm IDouble
-  | OLdouble => SImm ILdouble
-  | OMem t disp b x => SMem t (disp <? 0)%Z (bclass_of fc b) (bclass_of fc x)
-  | OLabel => SLabel
-  | ORef k _ => SRef k
-  | OStr => SStr
-  end.
-
-Definition shape_mode (s : shape) : op_mode :=
-  match s with
-  | SReg _ => OP_REG
-  | SImm IInt => OP_INT | SImm IUint => OP_UINT | SImm IFloat => OP_FLOAT
-  | SImm IDouble => OP_DOUBLE | SImm ILdouble => OP_LDOUBLE
-  | SMem _ _ _ _ => OP_MEM | SLabel => OP_LABEL | SRef _ => OP_REF | SStr => OP_STR
-  end.
-
 (* positions where "va_list as undef type mem" is special-cased *)
 Definition va_list_pos (code : opcode) (i : nat) : bool :=
   match code, i with
@@ -252,9 +181,9 @@ Definition va_list_pos (code : opcode) (i : nat) : bool :=
 
 Definition check_bclass (b : bclass) : res unit :=
   match b with
-  | BC_none | BC_int => Ok tt
+  | BC_none => Ok tt
   | BC_undecl => Err E_undeclared_func_reg
-  | BC_nonint => Err E_reg_type
+  | BC_reg t => if mode_eqb (type2mode t) OP_INT then Ok tt else Err E_reg_type
   end.
 
 (* the body of the operand loop of MIR_finish_func for one operand whose expected mode and
@@ -263,9 +192,9 @@ Definition check_shape (code : opcode) (i : nat) (expected : op_mode) (out_p : b
   let classify : res (op_mode * bool) :=           (* (mode, can_be_out_p) *)
     match s with
     | SReg RC_undecl => Err E_undeclared_func_reg
-    | SReg (RC m) => Ok (m, true)
+    | SReg (RC t) => Ok (type2mode t, true)
     | SMem t neg b x =>
-        if wrong_type_p t && (negb (all_blk_type_p t) || negb (call_code_p code))
+        if wrong_type_p t && (negb (all_blk_type_p t) || negb (call_code_p code) || (i <? 2))
            && (negb (type_eqb t T_UNDEF) || negb (va_list_pos code i))
         then Err E_wrong_type
         else if all_blk_type_p t && neg then Err E_wrong_type
@@ -487,9 +416,6 @@ Definition create_func_reg (fc : func_ctx) (nm : name) (hard : option name) (reg
           end
       end
   end.
-
-Definition reg_type_ok (t : mir_type) : bool :=
-  match t with T_I64 | T_F | T_D | T_LD => true | _ => false end.
 
 (* new_func_reg (func != NULL) *)
 Definition new_func_reg (fc : func_ctx) (t : mir_type) (nm : name) (hard : option name) : res (func_ctx * N) :=
